@@ -73,6 +73,28 @@ Theorem C10_counter :
 Proof. exact counter_sound. Qed.
 Print Assumptions C10_counter.
 
+(* Model.batch_evaluate_log_likelihood / _log_prior / _log_prior_unit_hypercube: for every call table
+   accepted by the checker (function, vectorisation flag and pool wrapper all belong to the SAME user
+   function), each method returns that function applied to every point, in order *)
+Theorem C10_model_calls :
+  forall (A B : Type) (fs : fid -> A -> B) (fvs : fid -> list A -> list B) (vect : fid -> bool)
+         (pmap : forall X Y, (X -> Y) -> list X -> list Y),
+    (forall k, vect k = true -> forall l, fvs k l = map (fs k) l) ->
+    (forall X Y (g : X -> Y) l, pmap X Y g l = map g l) ->
+    forall cs t, calls_ok cs = true -> tree_ok t no_facts = true ->
+    forall want c, In (want, c) cs -> forall pool k np l, (pool = true -> 1 <= np) ->
+      eval_mcall fs fvs vect pmap t c pool k np l = map (fs want) l.
+Proof. exact @calls_sound. Qed.
+Print Assumptions C10_model_calls.
+
+(* a call table that pairs the unit-hypercube prior with the flag of the ordinary prior is rejected *)
+Example C10_wrong_flag_rejected :
+  calls_ok [(FLik, {| m_func := FLik; m_flag := FLik; m_wrapper := FLik; m_unit_map := true; m_counts := true |});
+            (FPrior, {| m_func := FPrior; m_flag := FPrior; m_wrapper := FPrior; m_unit_map := true; m_counts := false |});
+            (FPriorUH, {| m_func := FPriorUH; m_flag := FPrior; m_wrapper := FPriorUH; m_unit_map := false; m_counts := false |})]
+  = false.
+Proof. vm_compute. reflexivity. Qed.
+
 (* non-vacuity: the hypotheses are met by a concrete non-trivial configuration *)
 Example C10_nonvacuous :
   let i := {| has_pool := true; vectorised := true; chunksize := 3; n_pool := 2 |} in
